@@ -76,6 +76,10 @@ CLAIMED = {
    text="DbLifecycle models the version marker, the advisory lock shared by DatabaseInner and every KeyspaceInner, user handles, the worker pool (thread counter, bounded queue whose messages carry keyspace clones), every step of Drop for DatabaseInner, the field drop order of DatabaseInner / KeyspaceInner, Drop for Journal and the unlock. TLC checks HandleImpliesLock, AtMostOneInstance, RefusedChangesNothing, IncompatibleRefused, AbsentMarkerRefused, UnlockAfterSync, NoUnsyncedOpen, DropReturnedWorkersGone, SettledUnlocked exhaustively (2-3 interleaved open attempts, 2 workers that may fail, both handle kinds, messages sent through keyspace handles) and DropTerminatesAll under weak fairness; five variants that re-introduce the repaired defects D9/D19/D20/D21/D22 must each be rejected by the model on every run. Binding: forced schedules with pause sites for each model counterexample; TLC-simulated client-level behaviours (open attempts of all three database types, every marker class, clone/drop orders, writes, messages) replayed with real worker threads comparing lock state (flock probe), open result, directory digest after refused opens, worker threads alive, journal dropped, journal bytes covered by fsync (syscall record); multi-threaded handle churn recorded through lifecycle hooks and validated against Life_Trace with every invariant evaluated in every state.",
    note="hook placement rule (releasing steps logged before, acquiring steps after) makes the logged lock-holding interval a subset of the real one; refusals with Locked are explained with the opposite approximation; the worker queue is not observed in traces; doc-hidden Keyspace::rotate_memtable through a keyspace that outlived its Database is out of scope",
    technique="TLA+ spec (DbLifecycle) + TLC safety/liveness + forced schedules + behaviour replay + trace validation"),
+ "C16": dict(engine="options-spec", design="6/C16",
+   text="FjallOptions models how a keyspace's configuration is stored (one row per option under 'c'+id, strategy-specific rows, key-value-separation rows only when enabled, all written by one ingestion), how delete_keyspace tombstones the rows visible at that moment, the meta tree's own compaction, id hand-out and re-seeding, seqno restoration, and recovery's decoder (from_kvs: strategy name selects the strategy rows, the 'blob' row selects the separation rows, a missing mandatory row panics); TLC checks InForce (configuration in force = configuration at creation, after any number of reopens), StoredExact, DecodeOfStored, OpenIgnoresPassed, IdsDistinct exhaustively over create / open-existing / delete / re-create / reopen with configurations that differ in their row sets. TLC-simulated behaviours over the full product of 432 configuration classes are replayed on the real code: each class is concretised with pseudo-random values (policy vectors of length 1, 2-6, 7, 255; ratio vectors up to 256; extreme numbers), existing keyspaces are always opened with different options, and after every step the Keyspace.config struct, the lsm-tree Config applied to the tree, and behavioural witnesses (journal flush on write, rotation request size) of every live keyspace are compared with what it was created with.",
+   note="value-level fidelity is decided per class on random representatives, not for all values (stated in DESIGN.md 6/C16); level_count is not settable (hard-coded 7); compaction filter factories are C18's",
+   technique="TLA+ spec (FjallOptions) + TLC exhaustive + class-concretising replay with three observation paths"),
 }
 
 REASON_PENDING = "check under construction in this session (specification module and conformance harness not yet bound); will be claimed once it runs green"
@@ -120,6 +124,8 @@ m = {
     "kind_free_text": "TLA+ specification of optimistic (SSI) and single-writer transactions; MC_Tx_*.cfg; MC_TxSim (behaviour generation)"},
    {"name": "mvcc-spec", "path": "spec/FjallMVCC.tla", "serves_properties": ["C05", "C06", "C14"],
     "kind_free_text": "TLA+ specification of writers' critical sections, version upgrades on the shared counters, snapshot readers; MC_MVCC_*.cfg; MVCC_Trace (trace validation of multi-threaded runs)"},
+   {"name": "options-spec", "path": "spec/FjallOptions.tla", "serves_properties": ["C16"],
+    "kind_free_text": "TLA+ specification of the stored form of keyspace options (meta keyspace rows), deletion, re-creation, recovery decoder; MC_Opts.cfg; MC_OptsSim (behaviour generation)"},
    {"name": "lifecycle-spec", "path": "spec/DbLifecycle.tla", "serves_properties": ["C17"],
     "kind_free_text": "TLA+ specification of lock, version marker, handles, worker shutdown, drop order; MC_Life*.cfg; MC_LifeSim (behaviour generation); Life_Trace (trace validation)"},
    {"name": "harness", "path": "harness/", "serves_properties": [p["id"] for p in props],
